@@ -121,6 +121,19 @@ def seqStep (st : SeqState) (line : String) : SeqState × String :=
   | [_, "sleep", _] => (st, "ok")      -- the harness lets real time pass; nothing else happens
   | [_, "flushBegin"] => (st, "ok")    -- `flush()` called on a helper thread; it runs its cycle once no other is in progress
   | [_, "evNew", _, _, _] => (st, "ok") -- `Event::new(..)`: a value, no tracing call
+  -- the span name is a user value whose conversion enters and drops a `LocalSpan` first (user code run by the call)
+  | [t, "localEnterRe", n] =>
+    match t.toNat?, strOfHex n with
+    | some t, some n =>
+      let (sys, obs) := exec (st.sys.enterExitLocal t) t (.localEnter n)
+      ({ st with sys := sys }, showObs st.nthreads obs)
+    | _, _ => (st, "bad-op parse")
+  | [t, "childLocalRe", v, n] =>
+    match t.toNat?, strOfHex n with
+    | some t, some n =>
+      let (sys, obs) := exec (st.sys.enterExitLocal t) t (.childLocal v n)
+      ({ st with sys := sys }, showObs st.nthreads obs)
+    | _, _ => (st, "bad-op parse")
   -- background operations: started on their thread, they may block; `bgEnd` is where a blocked one takes effect
   | t :: "bgBegin" :: rest =>
     match t.toNat?, parseOp rest with
@@ -163,6 +176,8 @@ def offStep (line : String) : String :=
   | [_, "sleep", _] => "ok"
   | [_, "flushBegin"] => "ok"
   | [_, "evNew", _, _, _] => "ok"
+  | [_, "localEnterRe", _] => "ok"
+  | [_, "childLocalRe", _, _] => "ok"
   | _ :: rest =>
     match parseOp rest with
     | some op => showObs 0 (execOff op)
